@@ -1,10 +1,11 @@
 SPECIFICATION Spec
-CONSTANTS Depth = 2
+CONSTANTS Depth = 1
  MaxOps = 8
  Pats <- PatsSmall
  Targs <- TargsSmall
- Insts <- InstsAll
+ Insts <- InstsSmall
  CmpSet <- CmpSmall
+ Cmp3Set <- Cmp3Tiny
  Kinds <- KindsAll
  Record = TRUE
  EmitAll = FALSE
